@@ -188,5 +188,134 @@ theorem setVal_shape {X : SetOracle} {ws : List Value} {r : Value} (h : setVal X
         simp only [ofBuckets, List.flatMap_cons, List.length_append, List.length_map] at ih ⊢
         omega
 
+/-! ### which members and which marks `SetVal` keeps — without any law on the rules -/
+
+theorem mem_values_setBucket_sub {α : Type} (h : Int) (b : List α) (m : α) :
+    ∀ (bs : List (Int × List α)), m ∈ SetImpl.values ⟨SetImpl.setBucket bs h b⟩ →
+      m ∈ b ∨ m ∈ SetImpl.values ⟨bs⟩
+  | [], hm => by simpa [SetImpl.setBucket, SetImpl.values] using hm
+  | (k, c) :: rest, hm => by
+    simp only [SetImpl.setBucket] at hm
+    split at hm
+    · simp only [SetImpl.values, List.flatMap_cons, List.mem_append] at hm ⊢
+      rcases hm with hm | hm | hm
+      · exact Or.inl hm
+      · exact Or.inr (Or.inl hm)
+      · exact Or.inr (Or.inr hm)
+    · split at hm
+      · simp only [SetImpl.values, List.flatMap_cons, List.mem_append] at hm ⊢
+        rcases hm with hm | hm
+        · exact Or.inl hm
+        · exact Or.inr (Or.inr hm)
+      · simp only [SetImpl.values, List.flatMap_cons, List.mem_append] at hm ⊢
+        rcases hm with hm | hm
+        · exact Or.inr (Or.inl hm)
+        · rcases mem_values_setBucket_sub h b m rest (by simpa [SetImpl.values] using hm) with h1 | h1
+          · exact Or.inl h1
+          · exact Or.inr (Or.inr (by simpa [SetImpl.values] using h1))
+
+theorem lookup_mem_values {α : Type} (h : Int) (m : α) :
+    ∀ (bs : List (Int × List α)) (c : List α), SetImpl.lookup bs h = some c → m ∈ c →
+      m ∈ SetImpl.values ⟨bs⟩
+  | [], _, hl, _ => by simp [SetImpl.lookup] at hl
+  | (k, c') :: rest, c, hl, hm => by
+    simp only [SetImpl.lookup] at hl
+    simp only [SetImpl.values, List.flatMap_cons, List.mem_append]
+    split at hl
+    · cases hl; exact Or.inl hm
+    · exact Or.inr (by simpa [SetImpl.values] using lookup_mem_values h m rest c hl hm)
+
+/-- `Set.Add` adds at most its argument -/
+theorem mem_values_add_sub {α : Type} (R : Rules α) (s : SetImpl α) (x m : α)
+    (hm : m ∈ SetImpl.values (SetImpl.add R s x)) : m ∈ SetImpl.values s ∨ m = x := by
+  simp only [SetImpl.add] at hm
+  split at hm
+  · exact Or.inl hm
+  · rcases mem_values_setBucket_sub _ _ m s.buckets hm with h1 | h1
+    · rcases List.mem_append.mp h1 with h2 | h2
+      · cases hl : SetImpl.lookup s.buckets (R.hash x) with
+        | none => simp [hl] at h2
+        | some c =>
+          simp only [hl, Option.getD_some] at h2
+          exact Or.inl (lookup_mem_values _ m s.buckets c hl h2)
+      · exact Or.inr (by simpa using h2)
+    · exact Or.inl h1
+
+theorem mem_values_addWhere_sub {α : Type} (R : Rules α) (p : α → Bool) (m : α) :
+    ∀ (l : List α) (rs : SetImpl α), m ∈ SetImpl.values (SetImpl.addWhere R p rs l) →
+      m ∈ SetImpl.values rs ∨ m ∈ l
+  | [], _, hm => Or.inl hm
+  | x :: l, rs, hm => by
+    simp only [SetImpl.addWhere, List.foldl_cons] at hm
+    have := mem_values_addWhere_sub R p m l _ hm
+    rcases this with h1 | h1
+    · split at h1
+      · rcases mem_values_add_sub R rs x m h1 with h2 | h2
+        · exact Or.inl h2
+        · exact Or.inr (by simp [h2])
+      · exact Or.inl h1
+    · exact Or.inr (List.mem_cons_of_mem _ h1)
+
+/-- **the members and the marks of what `SetVal` returns**: every member kept is one of
+the arguments with its marks removed at every depth (no member is invented; which of
+several `Equivalent` arguments is kept is the first in argument order), and the marks of
+the result are exactly the marks found anywhere in the arguments (hoisted to the set) -/
+theorem setVal_members_marks {X : SetOracle} {ws : List Value} {r : Value} (h : setVal X ws = .ok r) :
+    ∃ e ids vs, r.unmark = ⟨.set e, .sset ids vs⟩ ∧ ids.length = vs.length ∧
+      (∀ m ∈ vs, ∃ w ∈ ws, m = w.unmarkDeep.v) ∧
+      (∀ k, k ∈ r.marks ↔ ∃ w ∈ ws, k ∈ w.marksDeep) := by
+  unfold setVal at h
+  split at h
+  · cases h
+  · simp only at h
+    split at h <;> try cases h
+    rename_i et he
+    split at h
+    · cases h
+    · simp only [Res.ok.injEq] at h
+      subst h
+      refine ⟨et,
+        (ofBuckets (SetImpl.fromList (setRules X et) (List.map (fun x => x.v) (List.map unmarkDeep ws))).buckets).1,
+        (ofBuckets (SetImpl.fromList (setRules X et) (List.map (fun x => x.v) (List.map unmarkDeep ws))).buckets).2,
+        ?_, ?_, ?_, ?_⟩
+      · simp only [Value.unmark, Value.withMarks, unmark1_withMarks]
+        rfl
+      · generalize (SetImpl.fromList (setRules X et) (List.map (fun x => x.v) (List.map unmarkDeep ws))).buckets = bs
+        induction bs with
+        | nil => rfl
+        | cons kv bs ih =>
+          simp only [ofBuckets, List.flatMap_cons, List.length_append, List.length_map] at ih ⊢
+          omega
+      · intro m hm
+        have hm' : m ∈ SetImpl.values (SetImpl.fromList (setRules X et) (List.map (fun x => x.v) (List.map unmarkDeep ws))) := by
+          simpa [ofBuckets, SetImpl.values] using hm
+        rcases mem_values_addWhere_sub _ _ m _ _ hm' with h1 | h1
+        · simp [SetImpl.values, SetImpl.empty] at h1
+        · simp only [List.map_map, List.mem_map, Function.comp] at h1
+          obtain ⟨w, hw, rfl⟩ := h1
+          exact ⟨w, hw, rfl⟩
+      · intro k
+        simp only [Value.marks, Value.withMarks]
+        rw [marks1_withMarks]
+        simp only [Payload.marks1, List.not_mem_nil, false_or]
+        suffices hf : ∀ (l : List Value) (acc : List String),
+            k ∈ l.foldl (fun acc v => unionMarks acc v.marksDeep) acc ↔ k ∈ acc ∨ ∃ w ∈ l, k ∈ w.marksDeep by
+          simpa using hf ws []
+        intro l
+        induction l with
+        | nil => intro acc; simp
+        | cons w l ih =>
+          intro acc
+          simp only [List.foldl_cons, ih, mem_unionMarks, List.mem_cons, exists_eq_or_imp]
+          constructor
+          · rintro ((h1 | h1) | h1)
+            · exact Or.inl h1
+            · exact Or.inr (Or.inl h1)
+            · exact Or.inr (Or.inr h1)
+          · rintro (h1 | h1 | h1)
+            · exact Or.inl (Or.inl h1)
+            · exact Or.inl (Or.inr h1)
+            · exact Or.inr h1
+
 end Walk
 end CtyModel
